@@ -73,7 +73,9 @@ def spec_eval(sp):
 def spec_term(sp):
     k = sp[0]
     if k == "lit":
-        return "(SLit %s)" % c_hex(sp[1])
+        if len(sp[1]) <= 8:
+            return "(SLit %s)" % c_hex(sp[1])
+        return "(SNum 0x1%s)" % sp[1][::-1].hex()
     if k == "cyc":
         return "(SCyc %s %s)" % (c_hex(sp[1]), c_N(sp[2]))
     if k == "lcg":
@@ -97,14 +99,41 @@ def _lcp(a, ai, b, bi):
     return lo
 
 
+def _longest_run(b):
+    """longest stretch of b that is periodic with a period 1..4 -> (start, end, period)"""
+    best = (0, 0, 1)
+    for p in (1, 2, 3, 4):
+        start = None
+        for i in range(p, len(b) + 1):
+            same = i < len(b) and b[i] == b[i - p]
+            if same and start is None:
+                start = i - p
+            elif not same and start is not None:
+                if i - start > best[1] - best[0]:
+                    best = (start, i, p)
+                start = None
+    return best
+
+
 def spec_of(b, lcg=None, lcg_off=0):
     """-> bspec tuple denoting exactly b, or None when no compact form is found."""
     b = bytes(b)
-    if len(b) <= LITMAX:
+    if len(b) <= 48:
         return ("lit", b)
     for p in range(1, 65):
         if b[p:] == b[:-p]:
             return ("cyc", b[:p], len(b))
+    if len(b) <= 1 << 16:
+        i, j, p = _longest_run(b)
+        if j - i >= 64 and len(b) - (j - i) <= LITMAX:
+            sp = ("cyc", b[i:i + p], j - i)
+            if j < len(b):
+                sp = ("app", sp, ("lit", b[j:]))
+            if i > 0:
+                sp = ("app", ("lit", b[:i]), sp)
+            return sp
+    if len(b) <= LITMAX:
+        return ("lit", b)
     if lcg is None:
         return None
     parts, lit, i, off, lits = [], bytearray(), 0, lcg_off, 0
@@ -409,6 +438,45 @@ def events_term(log, spf):
     return c_list(out)
 
 
+_NUM_RE = None
+
+
+def share_literals(term):
+    """bind octet-string literals that occur more than once in a case to one `let`
+    (parsing literals dominates the cost of evaluating the cases)"""
+    import re
+    global _NUM_RE
+    if _NUM_RE is None:
+        _NUM_RE = re.compile(r"\(SNum 0x[0-9a-f]+\)")
+    seen, dup = {}, []
+    for m in _NUM_RE.finditer(term):
+        tok = m.group(0)
+        if len(tok) < 48:
+            continue
+        seen[tok] = seen.get(tok, 0) + 1
+        if seen[tok] == 2:
+            dup.append(tok)
+    if not dup:
+        return term
+    binds = ""
+    for i, tok in enumerate(dup):
+        term = term.replace(tok, "lit%d" % i)
+        binds += "let lit%d := %s in " % (i, tok)
+    return "(%s%s)" % (binds, term)
+
+
+def shard_bounds(cases, shard, max_chars):
+    """the sharding rule of lib.CoqEval.run (to re-run shards that were killed)"""
+    bounds, start, size = [], 0, 0
+    for i, c in enumerate(cases):
+        if i > start and (i - start >= shard or size + len(c) > max_chars):
+            bounds.append((start, i)); start, size = i, 0
+        size += len(c)
+    if cases:
+        bounds.append((start, len(cases)))
+    return bounds
+
+
 def short(b, n=24):
     return b[:n].hex() + ("..(%d octets)" % len(b) if len(b) > n else "")
 
@@ -510,7 +578,7 @@ def run(ctx):
         now = _time.time()
         timing[label] = round(timing.get(label, 0) + now - _t0[0], 1)
         _t0[0] = now
-    ok, log = ctx.prove()
+    ok, log = ctx.prove(extra_targets=["model/C17Cases.vo"])
     tick("prove")
 
     cases, meta = [], []
@@ -522,7 +590,7 @@ def run(ctx):
         dist[k] = dist.get(k, 0) + 1
 
     def add(term, m):
-        cases.append(term); meta.append(m)
+        cases.append(share_literals(term)); meta.append(m)
 
     impl_head = bytes(jwe_zips.GZIP_HEAD)
     impl_max = jwe_zips.MAX_SIZE
@@ -717,16 +785,16 @@ def run(ctx):
             near = abs(n - LIMIT) <= 3 or 256255 <= n <= 256260
             ms = (LIMIT + 1, LIMIT, n, n + 1, max(n - 1, 1)) if near or (n % 10 == 0 and not ctx.quick) else (LIMIT + 1,)
             roundtrip({"cls": "const", "c": cbyte, "n": n}, contract_ms=ms,
-                      contract_coq=near or n % 10 == 0 or not ctx.quick, comp_coq=near or n % 5 == 0 or not ctx.quick)
+                      contract_coq=near or n % 20 == 0 or not ctx.quick, comp_coq=near or n % 20 == 10 or not ctx.quick)
             roundtrip({"cls": "periodic", "pat": pat.hex(), "n": n}, contract_ms=(LIMIT + 1,),
-                      contract_coq=near or n % 10 == 5 or not ctx.quick, comp_coq=near or n % 5 == 1 or not ctx.quick)
+                      contract_coq=near or n % 20 == 5 or not ctx.quick, comp_coq=near or n % 20 == 15 or not ctx.quick)
             if n in lcg_lengths:
                 roundtrip({"cls": "lcg", "n": n}, coq=n in lcg_coq, contract_ms=(LIMIT + 1,), contract_coq=n in key_lengths)
         tick("B")
         # ---- C. small and assorted lengths, all classes
         small = [0, 1, 2, 3, 5, 6, 7, 10, 100, 255, 256, 257, 258, 259, 1000, 32767, 32768, 32769, 65535, 65536, 65537,
                  100000, 200000, 255000]
-        for n in small + [rng.randrange(0, 5000) for _ in range(ctx.scale(40, 600))] + \
+        for n in small + [rng.randrange(0, 5000) for _ in range(ctx.scale(24, 600))] + \
                 [rng.randrange(5000, LIMIT) for _ in range(ctx.scale(6, 80))]:
             cls = rng.choice(["const", "periodic", "lcg"]) if n not in small else None
             for c in ([cls] if cls else ["const", "periodic", "lcg"]):
@@ -735,9 +803,10 @@ def run(ctx):
                     d["c"] = rng.randrange(256)
                 if c == "periodic":
                     d["pat"] = bytes(rng.randrange(256) for _ in range(rng.randrange(2, 40))).hex()
-                roundtrip(d, contract_ms=(LIMIT + 1, max(1, n // 2), n + 1) if n < 70000 else (LIMIT + 1,))
+                roundtrip(d, contract_ms=(LIMIT + 1, max(1, n // 2), n + 1) if n < 70000 else (LIMIT + 1,),
+                          contract_coq=(n in small and c != "lcg") or not ctx.quick)
         # short literal plaintexts (text-like, random)
-        for _ in range(ctx.scale(150, 3000)):
+        for _ in range(ctx.scale(70, 3000)):
             ln = rng.choice([0, 1, 2, 3, 4, 8, 16, 31, 64, 100, 300, 700])
             kind = rng.randrange(3)
             if kind == 0:
@@ -746,7 +815,8 @@ def run(ctx):
                 p = bytes(rng.choice(b"abcde {}\":,0123") for _ in range(ln))
             else:
                 p = (ZHEAD + bytes(rng.randrange(256) for _ in range(ln)))     # plaintexts that begin with 78 9C
-            roundtrip({"cls": "lit", "hex": p.hex(), "n": len(p)}, contract_ms=(LIMIT + 1, 1, max(1, len(p))))
+            roundtrip({"cls": "lit", "hex": p.hex(), "n": len(p)},
+                      contract_ms=(LIMIT + 1, rng.choice([1, max(1, len(p)), max(1, len(p) // 2)])), contract_coq=rng.randrange(3) == 0)
 
         tick("C")
         # ---- D. over-limit plaintexts far from the boundary, high ratios
@@ -758,18 +828,18 @@ def run(ctx):
 
         tick("D")
         # ---- E. foreign streams
-        def foreign(desc, coq=True, contract_ms=(LIMIT + 1,)):
+        def foreign(desc, coq=True, contract_ms=(LIMIT + 1,), contract_coq=None):
             s, p = build_stream(desc, zipm)
             bump("foreign_" + desc["how"])
-            return run_decompress(s, desc, coq, contract_ms)
+            return run_decompress(s, desc, coq, contract_ms, contract_coq)
 
         strategies = [zlib.Z_DEFAULT_STRATEGY, zlib.Z_FILTERED, zlib.Z_HUFFMAN_ONLY, zlib.Z_RLE, zlib.Z_FIXED]
         f_lengths = [0, 1, 300, 70000, LIMIT - 1, LIMIT, LIMIT + 1, LIMIT + 2, LIMIT + 257, LIMIT + 258, LIMIT + 259, 300000]
         combos = [(lv, wb, st) for lv in range(-1, 10) for wb in (-15, 15) for st in strategies]
         if ctx.quick:
-            combos = rng.sample(combos, 36) + [(6, 15, 0), (6, -15, 0), (-1, 15, 0), (9, 15, 0), (0, -15, 0), (0, 15, 0), (1, 15, 0)]
+            combos = rng.sample(combos, 20) + [(6, 15, 0), (6, -15, 0), (-1, 15, 0), (9, 15, 0), (0, -15, 0), (0, 15, 0), (1, 15, 0)]
         for (lv, wb, st) in combos:
-            ns = f_lengths if not ctx.quick else rng.sample(f_lengths, 4) + [LIMIT, LIMIT + 1]
+            ns = f_lengths if not ctx.quick else rng.sample(f_lengths, 3) + [rng.choice([LIMIT, LIMIT + 1])]
             for n in ns:
                 c = rng.choice(["const", "periodic", "const", "periodic", "const", "periodic", "lcg"])
                 d = {"cls": c, "n": n}
@@ -781,9 +851,9 @@ def run(ctx):
                         "mem": rng.choice([8, 8, 1, 9])}
                 if rng.randrange(5) == 0 and n > 0:
                     desc["flush"] = rng.choice([1000, 65536, 100000])
-                foreign(desc)
+                foreign(desc, contract_coq=rng.randrange(2) == 0 or not ctx.quick)
         # hand-assembled stored blocks (zero, random and maximal sizes; wrapped or raw)
-        for _ in range(ctx.scale(40, 500)):
+        for _ in range(ctx.scale(25, 500)):
             n = rng.choice([0, 1, 5, 65535, 65536, 70000, LIMIT - 1, LIMIT, LIMIT + 1, LIMIT + 258, 300000])
             c = rng.choice(["const", "periodic", "const", "periodic", "lcg"])
             d = {"cls": c, "n": n}
@@ -795,7 +865,7 @@ def run(ctx):
             foreign({"data": d, "how": "stored", "sizes": sizes, "wrap": rng.randrange(3) == 0,
                      "pad": 0})
         # malformed authenticated streams: truncated, corrupted, trailing octets
-        for _ in range(ctx.scale(60, 1200)):
+        for _ in range(ctx.scale(45, 1200)):
             n = rng.choice([10, 300, 5120, 70000, LIMIT, LIMIT + 1, LIMIT + 300, 300000])
             c = rng.choice(["const", "periodic", "const", "periodic", "lcg"])
             d = {"cls": c, "n": n}
@@ -1000,10 +1070,12 @@ def run(ctx):
             for ser in sers:
                 # within the limit / at the limit / just over / far over; compressible and not
                 plan = [("const", LIMIT), ("const", LIMIT + 1), ("periodic", LIMIT + rng.choice([2, 100, 257, 258])),
-                        ("const", rng.randrange(0, 3000)), ("lcg", rng.randrange(0, 1500)),
-                        ("periodic", rng.randrange(LIMIT - 300, LIMIT + 1))]
+                        rng.choice([("const", rng.randrange(0, 3000)), ("lcg", rng.randrange(0, 1500)),
+                                    ("periodic", rng.randrange(LIMIT - 300, LIMIT + 1))])]
                 if not ctx.quick:
-                    plan += [("lcg", LIMIT), ("lcg", LIMIT + 1), ("const", 300000), ("periodic", LIMIT - 1)]
+                    plan += [("lcg", LIMIT), ("lcg", LIMIT + 1), ("const", 300000), ("periodic", LIMIT - 1),
+                             ("const", rng.randrange(0, 3000)), ("lcg", rng.randrange(0, 1500)),
+                             ("periodic", rng.randrange(LIMIT - 300, LIMIT + 1))]
                 for (c, n) in plan:
                     d = {"cls": c, "n": n}
                     if c == "const":
@@ -1086,9 +1158,25 @@ def run(ctx):
         resource.setrlimit(resource.RLIMIT_STACK, (hard, hard))     # long lists in coqc
     except (ValueError, OSError):
         pass
-    ev = lib.CoqEval(["From Model Require Import Base TableTypes C17Zip C17Cases."], "c17case", "c17_check", "c17_show",
-                     shard=24, max_chars=40000)
-    res = ev.run(cases)
+    SHARD, MAXCH = 40, 60000
+    imports = ["From Model Require Import Base TableTypes C17Zip C17Cases."]
+    ev = lib.CoqEval(imports, "c17case", "c17_check", None, shard=SHARD, max_chars=MAXCH)
+    res = ev.run(cases, jobs=12)
+    if res["errors"]:
+        # a shard killed on a loaded machine (memory): evaluate those shards again, fewer at a time
+        bounds = dict(shard_bounds(cases, SHARD, MAXCH))
+        redo = [i for si, _ in res["errors"] for i in range(si, bounds.get(si, si))]
+        ctx.notes.append("re-ran %d cases of %d shard(s) that coqc did not finish: %s" % (
+            len(redo), len(res["errors"]), res["errors"][0][1][-200:]))
+        res2 = ev.run([cases[i] for i in redo], jobs=4)
+        res["failing"] += [redo[j] for j in res2["failing"]]
+        res["evaluated"] += res2["evaluated"]
+        res["errors"] = res2["errors"]
+    model_says = {}
+    if res["failing"]:
+        evs = lib.CoqEval(imports, "c17case", "(fun _ : c17case => false)", "c17_show", shard=1, max_chars=MAXCH)
+        r3 = evs.run([cases[i] for i in res["failing"][:8]], jobs=8)
+        model_says = {res["failing"][k]: v[:300] for k, v in r3["shows"].items()}
     try:
         resource.setrlimit(resource.RLIMIT_STACK, (soft, hard))
     except (ValueError, OSError):
@@ -1105,6 +1193,7 @@ def run(ctx):
                       ("the real zlib violates the Coq statement of the contract on %r" if m[0] == "contract" else
                        "model and implementation disagree on %r") % (m[1:],),
                       {"case": cases[i][:3000], "stream": m[1] if len(m) > 1 else None, "fn": "case",
+                       "model_output(len,adler32),trace_len": model_says.get(i),
                        "no_failing_input_found": direct == 0,
                        "broken": "correspondence model/C17Cases.v:c17_check vs joserfc.rfc7518.jwe_zips / rfc7516.message"})
     for si, err in res["errors"][:5]:
